@@ -5,9 +5,9 @@
 (*   chk "val"   every result has the value of its recipe at every          *)
 (*               assignment of the named environment set                    *)
 (*   chk "same"  all results are one and the same object (structure)        *)
-(*   chk "val+same"  both                                                   *)
+(*   chk "val+same"  both;  "val1+same": value of the first, sameness of all *)
 (* Value comparison is three-valued; only a definite difference rejects.    *)
-EXTENDS Integers, Sequences, FiniteSets, TLC, Json, IOUtils, Term, Envs
+EXTENDS Integers, Sequences, FiniteSets, TLC, Json, IOUtils, Term, Envs, Expand
 VARIABLES l, bad, dec
 
 Finite(v) == v.t = "num" \/ v.t = "bool"
@@ -48,6 +48,21 @@ CheckEv(e) ==
        ELSE CASE e.c.chk = "val" -> Worst(vals)
               [] e.c.chk = "same" -> AllSame(e.r.vs)
               [] e.c.chk = "val+same" -> Worst(<<AllSame(e.r.vs)>> \o vals)
+              [] e.c.chk = "val1+same" -> Worst(<<AllSame(e.r.vs), ValOne(e.c.ts[1], e.r.vs[1], envs)>>)
+              \* C09: ts = <<expand(e), expand(expand(e))>>
+              [] e.c.chk = "expand" ->
+                   Worst(<<vals[1],
+                           IF e.r.vs[1].exc # "" THEN "unk"
+                           ELSE IF e.r.vs[2] # e.r.vs[1] THEN "bad:not-idempotent"
+                           ELSE IF ~IsExpanded(e.r.vs[1].v) THEN "bad:not-expanded" ELSE "ok">>)
+              \* C09: ts = <<expand(e1), expand(e2)>> with e1 = e2 as polynomials (by construction;
+              \* re-checked by value at every environment): the two results must be one object
+              [] e.c.chk = "expand-pair" ->
+                   IF e.r.vs[1].exc # "" \/ e.r.vs[2].exc # "" THEN Worst(vals)
+                   ELSE IF \A k \in 1..Len(envs) : Cmp3(Val(e.c.ts[1], envs[k]), Val(e.c.ts[2], envs[k])) = "eq"
+                        THEN Worst(<<vals[1], vals[2],
+                                     IF e.r.vs[1].v = e.r.vs[2].v THEN "ok" ELSE "bad:equal-polynomials-expand-differently">>)
+                        ELSE "unk"
               [] OTHER -> "bad:unknown-check"
 
 Events == ndJsonDeserialize(IOEnv.TRACE)
